@@ -61,6 +61,7 @@ Effects(o) ==
        [] o.op = "gserve" -> {[rs |-> rs, rep |-> [res |-> "ok",
                                  want |-> IF o.host = "a.com" THEN [rname |-> o.inst \o "a", urlPath |-> o.path]
                                           ELSE IF HasPrefix(o.path, "/v1/") THEN [rname |-> o.inst \o "b", urlPath |-> Drop(o.path, 3)]
+                                          ELSE IF HasPrefix(o.path, "/v2/") THEN [rname |-> o.inst \o "c", urlPath |-> Drop(o.path, 3)]
                                           ELSE [rname |-> "", urlPath |-> o.path]]]}
        [] o.op = "hadd"   -> LET d == Lower(o.domains[1]) IN
                              {[rs |-> IF v = "ok" THEN Put(rs, n, DoHandle(R0, d, "d", <<>>, <<"GET">>)) ELSE rs, rep |-> [res |-> v]]
@@ -75,6 +76,7 @@ Lin(g) == /\ g \in DOMAIN pend /\ ~pend[g].done
                 /\ pend' = Put(pend, g, [o |-> pend[g].o, done |-> TRUE, rep |-> e.rep])
           /\ UNCHANGED <<cfg, inuse, l>>
 
+OnlyX(want) == want.rname # "" /\ HasSuffix(want.rname, "c") /\ want.urlPath # "/x"
 \* does the recorded result r equal the reply prescribed at the Lin point?
 Matches(o, rep, r) ==
   /\ r.res = rep.res
@@ -87,7 +89,10 @@ Matches(o, rep, r) ==
                                                                  /\ (x.kind \in {"opt", "405"} => ToSet(r.r.allowH) = AllowSet(rep.R, x.pat))
        [] o.op = "gserve" -> /\ r.r.panic = "none" /\ r.r.rname = rep.want.rname /\ r.r.urlPath = rep.want.urlPath
                              /\ (rep.want.rname = "" => r.r.kind = "gnf")
-                             /\ (rep.want.rname # "" => (r.r.kind = "route" /\ r.r.h = rep.want.rname \o ":" \o (IF rep.want.urlPath = "/x" THEN "/x" ELSE "/{rest}")
+                             \* router g?c serves /x only: anything else is ITS 404
+                             /\ (OnlyX(rep.want) => r.r.kind = "404")
+                             /\ ((rep.want.rname # "" /\ ~OnlyX(rep.want))
+                                   => (r.r.kind = "route" /\ r.r.h = rep.want.rname \o ":" \o (IF rep.want.urlPath = "/x" THEN "/x" ELSE "/{rest}")
                                                           /\ (rep.want.urlPath # "/x" => "rest" \in DOMAIN r.r.params /\ r.r.params["rest"] = Drop(rep.want.urlPath, 1))))
        [] o.op = "hmatch" -> rep.canon => (r.ok = rep.hm.ok /\ (r.ok => \E x \in rep.hm.outs : x[2] = r.params))
        [] OTHER -> TRUE
